@@ -7,7 +7,7 @@
 * PREFIX(_equal) == same point set; PREFIX(_selfcheck) accepts every canonical region (harness/C05/equal.c).
 * Obligations that FAIL on the pinned tree have their own jobs (names finding.*), see the report / known-findings.
 """
-from vdriver import Job
+from vdriver import Job, ext_jobs, ext_meta
 import C05
 
 LEAK = ["--memory-leak-check"]
@@ -84,6 +84,13 @@ def equal_d_job():
                       "same count and equal rectangles at a ghost index; assigns nothing; terminates")
 
 
+# extension modules merged into this property's job list (vdriver.ext_jobs / ext_meta)
+EXT = [
+    # bitmap import: the end-to-end jobs carry the canonical-form obligations (post.shape.*) (seeds C06-4 / C07-4)
+    ("C07_msc", lambda n: n.startswith("image_e2e")),
+]
+
+
 def jobs(tier):
     js = [equal_d_job()]
     for bits in (32, 16):
@@ -98,7 +105,7 @@ def jobs(tier):
         if tier == "quick" and bits == 16:
             shared = [j for j in shared if ".s00." in j.name or ".s0." in j.name]
         js += shared
-    return js
+    return js + ext_jobs(tier, EXT)
 
 
 META = {
@@ -119,3 +126,4 @@ META = {
                     "operands to a canonical result; operations not under contract (translate, init_from_image: C07; pixman_op union/subtract: "
                     "unverified, see C05) break the induction"],
 }
+META = ext_meta(META, EXT)
